@@ -80,8 +80,12 @@ def gen_case(rng, N, nthread, npart, coord, dt, hasw, sort, style):
     J[:, coord] = j
     J[:, [c for c in range(3) if c != coord]] = other
     w8 = [int(v) for v in rng.integers(-8, 25, N)] if hasw else None
+    # about a third of the weighted cases carry the weights in the OTHER float type than the positions (float64 weights
+    # then have a 2^-40 component no float32 holds): "weights moved together with positions" means the very values.
+    # Derived from the case itself, not from the PRNG, so the case stream is unchanged.
+    wmix = bool(hasw and (sum(w8) + int(N)) % 3 == 0)
     return dict(N=int(N), nthread=int(nthread), np=int(npart), coord=int(coord), dt=dt, sort=int(sort), style=style,
-                box=[box.numerator, box.denominator], J=J.tolist(), w8=w8)
+                box=[box.numerator, box.denominator], J=J.tolist(), w8=w8, wmix=wmix)
 
 
 BIG_LAT = 2 ** 20
@@ -141,7 +145,16 @@ def arrays(c):
     box = Fraction(*c['box'])
     J = np.array(c['J'], dtype=np.int64).reshape(c['N'], 3)
     pos = (J.astype(np.float64) * float(box / c.get('lat', LAT))).astype(dt)      # exact: dyadic
-    w = None if c['w8'] is None else (np.array(c['w8'], dtype=np.float64) / 8).astype(dt)
+    if c['w8'] is None:
+        w = None
+    elif c.get('wmix'):
+        wdt = np.float64 if dt is np.float32 else np.float32
+        w = np.array(c['w8'], dtype=np.float64) / 8
+        if wdt is np.float64:
+            w = w + (np.arange(len(w)) + 1) * 2.0 ** -40        # exact in float64, lost in float32
+        w = w.astype(wdt)
+    else:
+        w = (np.array(c['w8'], dtype=np.float64) / 8).astype(dt)
     return pos, w, float(box)
 
 
@@ -352,6 +365,8 @@ def process(ctx, cases, fn, fn_py):
         ctx.count('N=%d' % c['N'] if c['N'] < 3 else ('N<=60' if c['N'] <= 60 else 'N<=200'))
         ctx.count('nthread>N' if c['nthread'] > c['N'] else 'nthread<=N')
         ctx.count('sort:%d weights:%d %s' % (c['sort'], c['w8'] is not None, c['dt']))
+        if c.get('wmix'):
+            ctx.count('weights in the other float type than the positions')
     # pass 1, Python level (py_func): an out-of-range access raises instead of corrupting memory
     faulted = False
     for k, c in enumerate(cases):
